@@ -186,6 +186,16 @@ func (r *fileRewriter) pass1(cfg pkgConfig) {
 				r.ins(x.Value.End(), ")", 10)
 				r.counts["R4.send"]++
 			}
+		case *ast.ExprStmt:
+			// wg.Wait() blocks until other goroutines are done: scheduling point after it
+			if c, ok := x.X.(*ast.CallExpr); ok {
+				if sel, ok := c.Fun.(*ast.SelectorExpr); ok {
+					if typ, name := methodOf(r.info, sel); typ == "sync.WaitGroup" && name == "Wait" {
+						r.ins(c.End(), "; simrt.Point("+q(r.site(c.Pos(), "wg.Wait"))+")", 10)
+						r.counts["R4.wgwait"]++
+					}
+				}
+			}
 		case *ast.GoStmt:
 			r.rewriteGo(x)
 		case *ast.RangeStmt:
